@@ -37,7 +37,8 @@ Cond_C14_Substrate == (IsR /\ IsADLResult(Ev.res)) => (Ev.subSame /\ Ev.reenc)
 Cond_C14_Addressable == (IsH /\ hm.cls \in Classes /\ hm.res \in {"linkmap", "dir"} /\ Ev.op = "lookup-string" /\ Ev.key > 0) =>
     ((Ev.info = "found") <=> (\E k \in 1 .. Len(hm.members) : hm.members[k] = Ev.key))
 \* C13: every operation on every hostile structure ends in a value or an error within its budget
-Cond_C13_Reify == IsR => Ev.res \notin {"panic", "timeout", "budget", "other"}
+\* ... and reification allocates in proportion to what is stored, not to what a field claims (8 MiB + 64 x the stored bytes)
+Cond_C13_Reify == IsR => (Ev.res \notin {"panic", "timeout", "budget", "other"} /\ Ev.allocKiB <= 8192 + 64 * Ev.storedKiB)
 Cond_C13_Op == IsH => (Ev.out \in {"value", "error"} /\ Ev.steps <= Ev.budget + 4096)
 
 \* beyond the listed properties: the generic node-method contract
